@@ -15,7 +15,8 @@ CLASSES = ['UnitCube', 'Ellipsoid', 'Mixture', 'Union', 'Neural', 'Nautilus']
 
 @st.composite
 def recipes(draw, classes=None, d_min=1, d_max=8, max_ops=5, n_max=300,
-            pools=(0,), allow_outside=True, overlap_bias=False):
+            pools=(0,), allow_outside=True, overlap_bias=False,
+            extreme_ratio=False):
     cls = draw(st.sampled_from(classes or CLASSES))
     dmin = d_min
     if cls in ('Neural', 'Nautilus', 'Union'):
@@ -30,6 +31,8 @@ def recipes(draw, classes=None, d_min=1, d_max=8, max_ops=5, n_max=300,
         n_min=(60 if cls in ('Nautilus', 'Neural') else
                12 if cls == 'Union' else None),
         n_max=n_max, families=fams,
+        extreme_ratio=(extreme_ratio and cls in ('Ellipsoid', 'Mixture',
+                                                 'Union')),
         allow_outside=(allow_outside and cls in ('Ellipsoid', 'Union'))))
     d = spec['d']
     if cls in ('Neural', 'Nautilus'):
